@@ -334,15 +334,11 @@ Section WorkersProofs.
   Qed.
 
   (** ** every schedule that ends with all threads done: the trace is an interleaving of the items' sequences *)
-  Theorem worker_trace_interleaving n sched : (1 <= n)%nat ->
-    let s := wrun seqs sched (winit (seq 0 (length seqs)) n) in
+  Lemma winv_interleaving s : WInv (seq 0 (length seqs)) s -> (1 <= length (pcs (qs s)))%nat ->
     all_done (qs s) = true -> interleaving seqs (wtrace s).
   Proof.
-    intros Hn s Hd i.
-    pose proof (winv_reachable (seq 0 (length seqs)) n sched (seq_NoDup _ _)) as W. fold s in W.
-    destruct (wrun_queue sched (winit (seq 0 (length seqs)) n)) as [sched' E]. fold s in E. cbn [qs winit] in E.
-    assert (P : Permutation (finished (qs s)) (seq 0 (length seqs))).
-    { rewrite E. apply queue_all_done_all_items; [exact Hn|]. now rewrite <- E. }
+    intros W Hn Hd i.
+    pose proof (inv_all_done_all_items _ _ (w_inv _ _ W) Hn Hd) as P.
     destruct (in_dec Nat.eq_dec i (finished (qs s))) as [Hf|Hnf]; [now apply (w_fin _ _ W)|].
     rewrite (w_none _ _ W i).
     - symmetry. apply nth_overflow.
@@ -350,6 +346,23 @@ Section WorkersProofs.
       apply (Permutation_in _ (Permutation_sym P)). apply in_seq. lia.
     - intros t Ht. pose proof (all_done_spec _ Hd t _ Ht). discriminate.
     - exact Hnf.
+  Qed.
+
+  Lemma wstep_length s t : length (pcs (qs (wstep seqs s t))) = length (pcs (qs s)).
+  Proof. destruct (wstep_qs s t) as [E|E]; rewrite E; [reflexivity|apply qstep_length]. Qed.
+
+  Lemma wrun_length sched s : length (pcs (qs (wrun seqs sched s))) = length (pcs (qs s)).
+  Proof.
+    unfold wrun. revert s. induction sched as [|t r IH]; intros s; [reflexivity|].
+    cbn [fold_left]. now rewrite IH, wstep_length.
+  Qed.
+
+  Theorem worker_trace_interleaving n sched : (1 <= n)%nat ->
+    let s := wrun seqs sched (winit (seq 0 (length seqs)) n) in
+    all_done (qs s) = true -> interleaving seqs (wtrace s).
+  Proof.
+    intros Hn s Hd. apply winv_interleaving; [apply winv_reachable, seq_NoDup| |exact Hd].
+    unfold s. rewrite wrun_length. cbn. now rewrite repeat_length.
   Qed.
 
   (** ** bounded work *)
